@@ -47,6 +47,11 @@ func (c *c19Counters) ok(class string) {
 	c.n++
 }
 
+// flag counts a scenario feature (vacuity guard) without counting a comparison
+func (c *c19Counters) flag(class string) {
+	c.classes[class]++
+}
+
 func (c *c19Counters) merge(env *Env) {
 	atomic.AddInt64(&env.checked, c.n)
 	env.mu.Lock()
@@ -492,7 +497,7 @@ func replayIdx(env *Env, lim *c19Limiter, cnt *c19Counters, c *c19Case) {
 			}
 			cnt.ok(class)
 			if c.Um == 1 {
-				cnt.ok("idx/model_says_missing_mask_matters")
+				cnt.flag("idx/model_says_missing_mask_matters")
 			}
 			fw := observeIndexBits(bits, c.K, sparse, seq, reuse)
 			rv := observeIndexBits(bits, c.K, sparse, rseq, reuse)
@@ -606,13 +611,13 @@ func replayGraph(env *Env, lim *c19Limiter, cnt *c19Counters, c *c19Case) {
 		}
 		cnt.ok(cl)
 		if eqk {
-			cnt.ok("graph/has_sequence_of_length_k")
+			cnt.flag("graph/has_sequence_of_length_k")
 		}
 		if c.Br == 1 && c.Cyc == 0 {
-			cnt.ok("graph/acyclic_with_branch")
+			cnt.flag("graph/acyclic_with_branch")
 		}
 		if c.Ties > 1 {
-			cnt.ok("graph/tied_heaviest_walks")
+			cnt.flag("graph/tied_heaviest_walks")
 		}
 		input := fmt.Sprintf("k=%d sequences=%q counts=%v", k, c.Seqs, c.Counts)
 		g, pan := c19BuildGraph(k, c.Seqs, c.Counts, order)
@@ -747,7 +752,7 @@ func replayGraph(env *Env, lim *c19Limiter, cnt *c19Counters, c *c19Case) {
 			lim.fail(env, "C19.graph_consensus_"+a, cl, fmt.Sprintf("%s: LongestConsensus()=%q: %s", input, o.cons, d), c)
 		}
 		if c.Single != "" {
-			cnt.ok("graph/single_sequence_without_repeated_kmer")
+			cnt.flag("graph/single_sequence_without_repeated_kmer")
 			if o.cons != c.Single {
 				lim.fail(env, "C19.graph_single_unchanged", cl, fmt.Sprintf("%s: consensus %q, the sequence itself (%q) is expected", input, o.cons, c.Single), c)
 			}
@@ -873,16 +878,40 @@ func emitIdx(env *Env, sc string, bits, k int, sparse bool, s string, reuse bool
 		fmt.Fprintf(os.Stderr, "recordIdx: k=%d sparse=%v adjusted to %d\n", k, sparse, fw.ksz)
 		os.Exit(2)
 	}
-	strs := [][]string{}
-	for _, x := range fw.strs {
-		strs = append(strs, c19Chars(x))
+	// compact event: the low k digits of every returned word, the number of non-zero digits found above
+	// them (stray high bits), and KmerAsString (a c g t -> 0..3, '#' -> 4) of a few keys
+	stray := 0
+	low := func(words [][]int) [][]int {
+		out := make([][]int, 0, len(words))
+		for _, w := range words {
+			for _, d := range w[:len(w)-k] {
+				if d != 0 {
+					stray++
+				}
+			}
+			out = append(out, w[len(w)-k:])
+		}
+		return out
 	}
-	keys, rkeys := fw.keys, rv.keys
-	if keys == nil {
-		keys = [][]int{}
-	}
-	if rkeys == nil {
-		rkeys = [][]int{}
+	keys, rkeys := low(fw.keys), low(rv.keys)
+	si := []int{}
+	strs := [][]int{}
+	for _, j := range []int{0, 1, len(fw.strs) / 2, len(fw.strs) - 1} {
+		if j >= 0 && j < len(fw.strs) && (len(si) == 0 || si[len(si)-1] < j+1) {
+			si = append(si, j+1)
+			d := make([]int, len(fw.strs[j]))
+			for x := range d {
+				switch c := fw.strs[j][x]; {
+				case c == '#':
+					d[x] = 4
+				case letterDigit(c) >= 0 && c != 'u':
+					d[x] = letterDigit(c)
+				default:
+					d[x] = 9
+				}
+			}
+			strs = append(strs, d)
+		}
 	}
 	sp, ru := 0, 0
 	if sparse {
@@ -892,7 +921,7 @@ func emitIdx(env *Env, sc string, bits, k int, sparse bool, s string, reuse bool
 		ru = 1
 	}
 	env.emit(map[string]any{"kind": "idx", "sc": sc, "bits": bits, "k": k, "sp": sp, "reuse": ru, "s": c19Chars(s), "r": c19Chars(r),
-		"keys": keys, "strs": strs, "rkeys": rkeys, "pan": pan, "panmsg": fw.pan + rv.pan})
+		"keys": keys, "rkeys": rkeys, "stray": stray, "si": si, "strs": strs, "pan": pan, "panmsg": fw.pan + rv.pan})
 }
 
 func recordIdx(env *Env, rng *rand.Rand, i, maxlen int) {
